@@ -182,6 +182,16 @@ def derived(ix, R):
         weights = spec(fl, 'self.get_weights(S)', param_env(fl, f, ['S']))
         if len(um) != 1 or not fl.tab.equal(um[0].args[0], fl.tab.atom('idx', (samples, idx))):
             why.append('update_model(%s)' % [fmt(fl, a) for e in um for a in e.args])
+        ip = [e for e in calls(fl, 'initialize_profiles') if sl in e.loops]
+        if len(ip) != 1:
+            why.append('%d initialize_profiles calls in the sample loop' % len(ip))
+        for e in um + ip:
+            if any(not g.early for g in e.guards) or len(e.loops) != 1:
+                why.append('%s is conditional: a skipped sample keeps the previous sample\'s derived values' % e.name)
+        if len(um) == 1 and len(ip) == 1:
+            order = [fl.events.index(um[0]), fl.events.index(ip[0])] + [fl.events.index(a) for a in apps]
+            if order != sorted(order):
+                why.append('update_model, initialize_profiles and the appends are out of order')
         vals = [e for e in apps if not fl.tab.equal(e.args[0], fl.tab.atom('idx', (weights, idx)))]
         ws = [e for e in apps if fl.tab.equal(e.args[0], fl.tab.atom('idx', (weights, idx)))]
         if len(ws) != 1 or len(vals) != 1:
@@ -194,7 +204,7 @@ def derived(ix, R):
                 fl.tab.equal(inner.iter_rf[1], code(fl, 'self.derived_values'))):
             why.append('derived values are not zipped with their names')
     R.check('6.trace', 'ARG', site,
-            'each processed sample: update_model(samples[idx]) then exactly one (value, weights[idx]) append per derived parameter',
+            'each processed sample: unconditional update_model(samples[idx]) and initialize_profiles(), then exactly one (value, weights[idx]) append per derived parameter',
             not why, key='; '.join(why), detail='; '.join(why), loc=f.loc())
 
 
@@ -389,6 +399,8 @@ MUTANTS = [
     ('solution-swap-keys', MN, "opt_map[idx] = p_value['nest_map']\n                opt_values[idx] = p_value['value']", "opt_map[idx] = p_value['value']\n                opt_values[idx] = p_value['nest_map']", '4.multinest.fill'),
     ('gensol-median-spectra', OP, "            self.update_model(optimized_map)\n            opt_result = self._model.model(cutoff_grid=False)", "            self.update_model(optimized_median)\n            opt_result = self._model.model(cutoff_grid=False)", '5.order'),
     ('gensol-no-update', OP, "            self.update_model(optimized_median)\n            self._model.model(cutoff_grid=False)", "            self._model.model(cutoff_grid=False)", '5.order'),
+    ('seed-C09B-derived-shortcut', OP, "            self.update_model(parameters)\n            self._model.initialize_profiles()\n            for p, v in zip(self.derived_names", "            if count == 0 or not np.allclose(parameters, samples[idx - 1]):\n                self.update_model(parameters)\n                self._model.initialize_profiles()\n            for p, v in zip(self.derived_names", '6.trace'),
+    ('derived-noinit', OP, "            self.update_model(parameters)\n            self._model.initialize_profiles()\n            for p, v in zip(self.derived_names", "            self.update_model(parameters)\n            for p, v in zip(self.derived_names", '6.trace'),
     ('derived-weight', OP, 'derived_param[p][1].append(weight)', 'derived_param[p][1].append(weights[0])', '6.trace'),
     ('derived-skip', OP, "            for p, v in zip(self.derived_names, self.derived_values):\n                derived_param[p][0].append(v)", "            for p, v in zip(self.derived_names, self.derived_values):\n                if v > 0:\n                    derived_param[p][0].append(v)", '6.trace'),
 ]
